@@ -27,6 +27,8 @@ class Pipe:
 
         class Conn:
             async def send(self, m):
+                if isinstance(m, str):
+                    m.encode("utf-8")        # a text frame goes out as UTF-8, as on a real websocket: what cannot be encoded is not sent
                 pipe.log.append((pipe.name, side, m))
                 await pipe.q[other].put(m)
 
